@@ -117,14 +117,15 @@ Lemma burn_spec s a d amt s' :
   burn s a d amt = Some s' -> 0 <= amt ->
   same_meta s s' /\
   (forall e, st_sup s' e = st_sup s e - delta (denom_eqb e d) amt) /\
-  (amt = 0 \/ amt <= st_bal s a d) /\
+  (amt = 0 \/ (amt <= st_bal s a d /\ amt <= st_sup s d)) /\
   forall x e, st_bal s' x e = st_bal s x e - delta (at_ x a e d) amt.
 Proof.
   unfold burn. intros H Hamt. destruct (amt =? 0) eqn:Z0.
   - apply Z.eqb_eq in Z0. inversion H; subst.
     split; [apply same_meta_refl|]. split; [|split; [auto|]]; intros; unfold delta;
       [destruct (denom_eqb _ _)|destruct (at_ _ _ _ _)]; lia.
-  - destruct (st_bal s a d <? amt) eqn:Lt; [discriminate|]. apply Z.ltb_ge in Lt.
+  - destruct ((st_bal s a d <? amt) || (st_sup s d <? amt)) eqn:Lt; [discriminate|].
+    apply orb_false_elim in Lt as [Lt Lt2]. apply Z.ltb_ge in Lt. apply Z.ltb_ge in Lt2.
     inversion H; subst s'. cbn [set_bank st_params st_next st_pools st_bal st_sup].
     split; [split; reflexivity|]. split; [|split; [auto|]].
     + intros e. unfold upd_sup, delta. destruct (denom_eqb_spec e d); [subst|]; lia.
